@@ -40,6 +40,7 @@ mod bound {
     include!(concat!(env!("OUT_DIR"), "/incl.rs"));
 }
 
+mod inj;
 mod pq;
 mod seq;
 mod seqfut;
@@ -92,6 +93,7 @@ fn main() {
     let outcomes: Vec<Outcome> = match prop.as_str() {
         "C20" => vec![pq::check_pq(if quick { 9 } else { 11 }), pq::check_ipq(if quick { 8 } else { 9 })],
         "C17" => sinks::check(if quick { 7 } else { 9 }),
+        "C04" => vec![inj::check(if quick { 9 } else { 11 })],
         "C07" => vec![seqfut::check(if quick { 5 } else { 7 })],
         "C12" => qq::check(if quick { 12 } else { 15 }),
         _ => {
